@@ -543,7 +543,7 @@ func genBatch(t *rapid.T) batchCase {
 		RequireExplicitExec: rapid.IntRange(0, 5).Draw(t, "explicit") == 0}
 	n := rapid.IntRange(2, 10).Draw(t, "nscripts")
 	o := tsgen.Options{MaxLines: 14, FailProb: 35, Exec: true, Background: true, Custom: true, FixedParams: &c.P, PidDir: pidDir(), Prologue: []string{"exec vmain dumpenv", "recstd"}, AllowChmod2: true,
-		ExtraKinds: []string{"cd", "cd", "cd", "cd", "mkdir", "mkdir", "exists", "exists", "env", "cp", "probe", "probe", "exec", "bg", "bg", "bg", "bgwait", "bgwait", "wait", "bgend", "bgend", "bgmix", "bgmix"}}
+		ExtraKinds: []string{"cd", "cd", "cd", "cd", "mkdir", "mkdir", "exists", "exists", "env", "cp", "probe", "probe", "exec", "bg", "bg", "bg", "bgwait", "bgwait", "wait", "bgend", "bgend", "bgmix", "bgmix", "bgdup", "bgdup"}}
 	for i := 0; i < n; i++ {
 		if rapid.IntRange(0, 5).Draw(t, "pathtemplate") == 0 {
 			// scripts that differ in whether zzprog is on their PATH
@@ -582,6 +582,25 @@ func genBatch(t *rapid.T) batchCase {
 	return c
 }
 
+// dupBackground: some name is given to two background commands of the script (line shape bgdup, or by chance).
+func dupBackground(text string) bool {
+	seen := map[string]bool{}
+	for _, l := range strings.Split(text, "\n") {
+		f := strings.Fields(l)
+		if len(f) == 0 {
+			continue
+		}
+		last := f[len(f)-1]
+		if len(last) > 2 && strings.HasPrefix(last, "&") && strings.HasSuffix(last, "&") {
+			if seen[last] {
+				return true
+			}
+			seen[last] = true
+		}
+	}
+	return false
+}
+
 func TestBatches(t *testing.T) {
 	vt.Run(t, rec, vt.Prop[batchCase]{Kind: "batch", Gen: genBatch, Check: checkBatch, Meta: func(c batchCase) vt.Meta {
 		cl := []string{"mode=" + c.Mode}
@@ -596,6 +615,12 @@ func TestBatches(t *testing.T) {
 		}
 		if last.setupFail {
 			cl = append(cl, "setup-fails-after-defer")
+		}
+		for _, s := range c.Scripts {
+			if dupBackground(s.Text) {
+				cl = append(cl, "background-name-still-on-the-list")
+				break
+			}
 		}
 		return vt.Meta{NonTrivial: last.collide && last.midway, Classes: cl}
 	}, Reduce: func(c batchCase) []batchCase {
